@@ -194,8 +194,8 @@ def cases(tier):
     for it in corpus.build(tier):
         out.append({"kind": "other", "payload": it["payload"], "name": it["name"]})
     fp = bytes((31 * i + 3) & 0xFF for i in range(30))
-    for num in range(1070, 1230):
-        if num not in pinned.MSM_NUMBERS:
+    for num in range(4096):
+        if num not in pinned.MSM_NUMBERS and num != 4076:
             out.append({"kind": "other", "payload": (num << 4).to_bytes(2, "big") + fp, "name": str(num)})
     for sub in range(256):
         if sub != 201:
@@ -212,7 +212,7 @@ def _work(chunk):
 def run(tier, seed, t0):
     allc = cases(tier)
     core.check_deterministic(judge, allc[3])
-    st = core.pmap(_work, core.chunks(allc, 25))
+    st = core.pmap(_work, core.chunks(allc, 100))
     # single-process history sweeps: the helpers are called on all MSM / 4076_201 cases again in
     # one process in three orders (GLONASS first, reversed, interleaved), so that state kept by a
     # helper between calls meets a message of another family
